@@ -1,8 +1,10 @@
 package rules
 
 import (
+	"fmt"
 	"go/token"
 	"go/types"
+	"os"
 
 	"golang.org/x/tools/go/ssa"
 
@@ -20,6 +22,7 @@ type nonNeg struct {
 	fnMemo  map[*ssa.Function]int // 1 yes 2 no 3 in progress
 	fldMemo map[string]int        // type.field
 	impls   []*ssa.Function       // datatype.Type implementors' methods
+	idxMemo map[[2]interface{}]int
 }
 
 func (c *Ctx) newNonNeg() *nonNeg {
@@ -74,7 +77,7 @@ func (n *nonNeg) val(v ssa.Value, depth int) bool {
 		case token.SUB:
 			// P(x) - x with P a round-up: decide in the congruence domain with x symbolic
 			env := &cong.Env{MaxDepth: 3,
-				IsSym: func(s ssa.Value) bool { return s == x.Y },
+				IsSym: func(s ssa.Value) bool { return s == x.Y || sameLenCall(s, x.Y) },
 				Callee: func(call *ssa.Call) *ssa.Function {
 					g := flow.StaticCallee(call)
 					if g == nil || g.Signature.Recv() != nil {
@@ -128,10 +131,18 @@ func (n *nonNeg) val(v ssa.Value, depth int) bool {
 		return n.param(x)
 	case *ssa.Extract:
 		// (n int, err error) of io reads etc.
+		if call, ok := x.Tuple.(*ssa.Call); ok && x.Index > 0 {
+			if g := flow.StaticCallee(call); g != nil && g.Blocks != nil && n.c.P.IsLibrary(g) && n.fnIdx(g, x.Index) {
+				return true
+			}
+		}
 		if call, ok := x.Tuple.(*ssa.Call); ok && x.Index == 0 {
 			o := flow.CalleeObj(call)
 			if o != nil && o.Pkg() != nil && (o.Pkg().Path() == "io" || o.Pkg().Path() == "bytes" || o.Pkg().Path() == "net") {
 				return true // counts returned by standard readers/writers are >= 0 (contract)
+			}
+			if g := flow.StaticCallee(call); g != nil && g.Blocks != nil && n.c.P.IsLibrary(g) && n.fnIdx(g, x.Index) {
+				return true
 			}
 			if call.Call.IsInvoke() && (call.Call.Method.Name() == "Read" || call.Call.Method.Name() == "Write" || call.Call.Method.Name() == "ReadAtLeast" || call.Call.Method.Name() == "WriteStream") {
 				return true
@@ -176,12 +187,52 @@ func (n *nonNeg) fn(g *ssa.Function) bool {
 	for _, rv := range flow.ReturnValues(g, 0) {
 		if !n.val(rv, 0) {
 			ok = false
+			if os.Getenv("DVERIF_DEBUG") != "" {
+				fmt.Fprintln(os.Stderr, "nonneg fn", g, rv)
+			}
 		}
 	}
 	if ok {
 		n.fnMemo[g] = 1
 	} else {
 		n.fnMemo[g] = 2
+	}
+	return ok
+}
+
+// fnIdx: every value returned as result idx of g is non-negative.
+func (n *nonNeg) fnIdx(g *ssa.Function, idx int) bool {
+	if idx == 0 {
+		return n.fn(g)
+	}
+	if n.idxMemo == nil {
+		n.idxMemo = map[[2]interface{}]int{}
+	}
+	key := [2]interface{}{g, idx}
+	switch n.idxMemo[key] {
+	case 1, 3:
+		return true
+	case 2:
+		return false
+	}
+	if g.Blocks == nil || idx >= g.Signature.Results().Len() {
+		return false
+	}
+	n.idxMemo[key] = 3
+	ok := true
+	rvs := flow.ReturnValues(g, idx)
+	if len(rvs) == 0 {
+		ok = false
+	}
+	for _, rv := range rvs {
+		if !n.val(rv, 0) {
+			ok = false
+		}
+	}
+	if ok {
+		n.idxMemo[key] = 1
+	} else {
+		n.idxMemo[key] = 2
 	}
 	return ok
 }
@@ -211,6 +262,9 @@ func (n *nonNeg) field(tn, fld string) bool {
 			stores++
 			if !n.val(st.Val, 0) {
 				ok = false
+				if os.Getenv("DVERIF_DEBUG") != "" {
+					fmt.Fprintln(os.Stderr, "nonneg field", key, "store in", f, st.Val)
+				}
 			}
 		})
 	}
